@@ -154,6 +154,14 @@ impl GC {
     }
 }
 
+#[cfg(feature = "verif")]
+impl GC {
+    /// The objects this collector currently manages
+    pub fn verif_managed(&self) -> Vec<Object> {
+        self.objects.clone()
+    }
+}
+
 /// Implement Drop trait so that GC::destroy() is automatically called once the Garbage Collector goes out of scope
 impl Drop for GC {
     fn drop(&mut self) {
